@@ -238,7 +238,8 @@ def rand_cfg(rng, maxL=24):
     Sv = rng.randint(1, Lv)
     if rng.random() < 0.15:
         Sv = rng.choice([1, Lv, max(1, Lv - 1), max(1, Lv // 2)])
-    style = rng.choice([(False, False), (True, False), (True, True)])
+    # (False, True): kaldi_shift given to a causal computer - the flag is documented for the centered style only and must be ignored
+    style = rng.choice([(False, False), (True, False), (True, True), (False, False), (True, False), (True, True), (False, True)])
     return (Lv, Sv, style[0], style[1])
 
 
